@@ -5,6 +5,6 @@ export VERIF_REPO=$L/repo VERIF_SEED=$SEED
 cd $L/verif
 git -C $L/repo checkout -q -- .
 for p in "$@"; do
-  res=$(./check $p --tier quick 2>&1); rc=$?
-  echo "$(date +%F) clean $p seed=$SEED exit=$rc :: $(echo "$res" | grep -m1 '^VIOLATION\|infrastructure' | cut -c1-200) :: $(echo "$res" | grep -m1 -A1 '^VIOLATION' | tail -1 | cut -c1-300)" >> $OUT
+  res=$(./check $p --tier ${TIER:-quick} 2>&1); rc=$?
+  echo "$(date +%F) clean $p tier=${TIER:-quick} seed=$SEED exit=$rc :: $(echo "$res" | grep -m1 '^VIOLATION\|infrastructure' | cut -c1-200) :: $(echo "$res" | grep -m1 -A1 '^VIOLATION' | tail -1 | cut -c1-300)" >> $OUT
 done
